@@ -56,7 +56,7 @@ func (c *Ctx) rulesC04(a *coreAnchors, la *LockAnalysis) {
 					continue
 				}
 				ne++
-				good := f == pq
+				good := f == pq || (f.Parent() == nil && c.hostedBy(f, pq))
 				if _, isGo := ins.(*ssa.Go); isGo {
 					good = false
 				}
@@ -345,11 +345,14 @@ func (c *Ctx) rulesC04(a *coreAnchors, la *LockAnalysis) {
 
 	// C04.wq
 	nt := c.standInSites(pq, funcKey(a.newTransition))
-	psub := c.fn(pm + ":Machine.processSubscriptions")
+	psub, psInlined := c.procSubsFn()
 	if len(nt) == 1 && psub != nil {
 		// processSubscriptions must reach ProcessWhenQueue
 		reach := len(c.sitesIn(psub, pm+":Subscriptions.ProcessWhenQueue")) > 0
 		c.check(reach, "C04.wq", "processSubscriptions calls ProcessWhenQueue", psub.Pos(), "queue-tick waiters are resolved by processSubscriptions")
+		if psInlined {
+			psub = nil // inlined into processQueue: only the direct collector calls count below
+		}
 		// every path from newTransition to the end of the iteration passes
 		// processSubscriptions / ProcessWhenQueue, except through the IsCheck branch
 		var isWQd func(i ssa.Instruction, d int) bool
